@@ -165,7 +165,9 @@ pub fn concurrent(args: &[String]) {
             h.join().unwrap();
         }
         trace::emit(json!({"ev":"Final","cur":idx(&ids, a.load()),"th":"main"}));
-        lines.extend(trace::take());
+        // only what the racing threads and the driver logged: the reloader of the cache that produced the ids
+        // may still be saying goodbye (its hook events have nothing to do with this trace)
+        lines.extend(trace::take().into_iter().filter(|l| l.get("hook").is_none() && l["th"] != "R"));
     }
     trace::write_ndjson(out, &lines).unwrap();
     trace::disable();
